@@ -1280,6 +1280,11 @@ func ruleModCfgReal(w *World, r *RuleResult) {
 					x := stripConv(a.A[1])
 					return x.Op == "sel" && x.S == f && x.A[0].Op == "p"
 				}
+				if a.Op == "eq" && !v && a.A[1].IsConstVal(0) && min <= 1 && !isSigned(a.A[0].Ty) && isIntType(a.A[0].Ty) {
+					// an unsigned field that is not zero is at least one
+					x := stripConv(a.A[0])
+					return x.Op == "sel" && x.S == f && x.A[0].Op == "p"
+				}
 				return false
 			}) {
 				good = false
@@ -1453,8 +1458,13 @@ func ruleTabRecorder(w *World, r *RuleResult) {
 				r.check(s.state == nil && s.color == nil, key+"/not-recording", w.Pos(rep.Pos()), "reads ignored unless recording is switched on", "a read report changes the record although read recording is off")
 			}
 		case tn == "WarriorSpawn":
-			if p.End == "backedge" {
-				good := s.state != nil && s.color != nil && s.state.Val.IsConstVal(cs[want]) && isRepField(s.color.Val, "WarriorIndex")
+			// the marking loop, in the handler itself or in a method it hands the report to
+			spawnLoop := func(p *Path, isRep func(*T, string) bool) (found, good bool) {
+				if p.End != "backedge" {
+					return false, false
+				}
+				s, _ := collect(p)
+				good = s.state != nil && s.color != nil && s.state.Val.IsConstVal(cs[want]) && isRep(s.color.Val, "WarriorIndex")
 				for _, e := range []*Event{s.state, s.color} {
 					if e == nil {
 						good = false
@@ -1469,11 +1479,41 @@ func ruleTabRecorder(w *World, r *RuleResult) {
 				}
 				start := false
 				for _, e := range p.Events {
-					if e.Kind == "enterloop" && len(e.Args) > 0 && isRepField(e.Args[0], "Address") {
+					if e.Kind == "enterloop" && len(e.Args) > 0 && isRep(e.Args[0], "Address") {
 						start = true
 					}
 				}
-				r.check(good && start, key, w.Pos(rep.Pos()), "marks [addr, addr+length) modulo the core size as written by the warrior", "the spawn report does not mark every loaded cell (index % coresize) as (CoreWritten, warrior index) starting at the reported address")
+				return true, good && start
+			}
+			found, good := spawnLoop(p, isRepField)
+			if !found {
+				for _, e := range p.Events {
+					if e.Kind != "call" || e.Callee == nil || e.Callee.Pkg != rep.Pkg {
+						continue
+					}
+					var rp string
+					for k, prm := range e.Callee.Params {
+						if typeName(prm.Type()) == "Report" && k < len(e.Args) && e.Args[k].Op == "p" && e.Args[k].S == pname {
+							rp = prm.Name()
+						}
+					}
+					if rp == "" {
+						continue
+					}
+					cps, _ := w.Paths(e.Callee)
+					for _, cp := range cps {
+						f2, g2 := spawnLoop(cp, func(t *T, f string) bool {
+							t = stripConv(t)
+							return t.Op == "sel" && t.S == f && t.A[0].Op == "p" && t.A[0].S == rp
+						})
+						if f2 {
+							found, good = true, g2
+						}
+					}
+				}
+			}
+			if found {
+				r.check(good, key, w.Pos(rep.Pos()), "marks [addr, addr+length) modulo the core size as written by the warrior", "the spawn report does not mark every loaded cell (index % coresize) as (CoreWritten, warrior index) starting at the reported address")
 				seen[tn] = true
 			}
 		default:
@@ -1524,26 +1564,52 @@ func checkRecorderReset(w *World, c *simCtx, fn *ssa.Function, stateF, colorF, s
 		if st == nil || co == nil {
 			continue
 		}
+		// both stores at the same index i = L + d, L the loop counter
+		ix := stripConv(st.LV.A[1])
+		li := linearOf(ix)
+		var lv *T
+		for k, at := range li.Atom {
+			if at.Op == "loopvar" && li.Coef[k] == 1 && len(li.Atom) == 1 {
+				lv = at
+			}
+		}
+		if !(st.Val.IsConstVal(cs["CoreEmpty"]) && co.Val.IsConstVal(-1) && lv != nil && sameTerm(st.LV.A[1], co.LV.A[1])) {
+			return false, "recorder reset stores " + st.Val.Show() + "/" + co.Val.Show() + " instead of (CoreEmpty, -1) at one running index"
+		}
+		// which header phi is the counter
+		phiIdx := -1
+		n := 0
+		for _, in := range fn.Blocks[int(lv.C)].Instrs {
+			if ph, ok := in.(*ssa.Phi); ok {
+				if ph.Comment == lv.S {
+					phiIdx = n
+				}
+				n++
+			}
+		}
 		init0, step1 := false, false
 		for _, e := range p.Events {
-			if e.Kind == "enterloop" && len(e.Args) > 0 && e.Args[0].IsConstVal(0) {
-				init0 = true
+			if e.Kind == "enterloop" && int(e.Res.C) == int(lv.C) && phiIdx >= 0 && phiIdx < len(e.Args) && e.Args[phiIdx].IsConst() {
+				init0 = e.Args[phiIdx].C+li.Const == 0 // the first index is 0
 			}
-			if e.Kind == "backedge" && len(e.Args) > 0 {
-				l := linearOf(e.Args[0])
-				step1 = l.Const == 1 && len(l.Coef) == 1
+			if e.Kind == "backedge" && int(e.Res.C) == int(lv.C) && phiIdx >= 0 && phiIdx < len(e.Args) {
+				l := linearOf(e.Args[phiIdx])
+				step1 = l.Const == 1 && len(l.Coef) == 1 && l.Coef[lv.Show()] == 1
 			}
 		}
 		bound := hasCond(p, func(a *T, v bool) bool {
-			if a.Op == "lt" && v && a.A[0].Op == "loopvar" {
-				_, ok := selOf(a.A[1], sizeF)
-				return ok
+			if a.Op == "lt" && v && sameTerm(a.A[0], ix) {
+				if _, ok := selOf(a.A[1], sizeF); ok {
+					return true
+				}
+				if l := stripConv(a.A[1]); l.Op == "len" {
+					_, ok1 := selOf(l.A[0], stateF)
+					_, ok2 := selOf(l.A[0], colorF)
+					return ok1 || ok2 // every recorder array has coresize elements
+				}
 			}
 			return false
 		})
-		if !(st.Val.IsConstVal(cs["CoreEmpty"]) && co.Val.IsConstVal(-1) && st.LV.A[1].Op == "loopvar" && co.LV.A[1].Op == "loopvar") {
-			return false, "recorder reset stores " + st.Val.Show() + "/" + co.Val.Show() + " instead of (CoreEmpty, -1)"
-		}
 		if !(init0 && step1 && bound) {
 			return false, "recorder reset loop does not run over every address 0 .. coresize-1"
 		}
